@@ -311,7 +311,7 @@ class Prop:
 
     def run_model(self, cases, tier):
         pre = 'From RB Require Import Base.Val Model.Deferral Model.DeferralRib.\nOpen Scope N_scope.'
-        return coqrun.eval_terms('C11', pre, [self.case_to_coq(c) for c in cases], shards=8)
+        return coqrun.eval_terms('C11m', pre, [self.case_to_coq(c) for c in cases], shards=8)
 
     def canon(self, case, obs):
         if obs == [-1]:
